@@ -939,6 +939,8 @@ func (s *Server) processPublish(cl *Client, pk packets.Packet) error {
 			return err
 		}
 		return nil
+	} else {
+		return nil // any other hook error also stops the publish: it is neither forwarded nor retained
 	}
 
 	if pk.FixedHeader.Retain { // [MQTT-3.3.1-5] ![MQTT-3.3.1-8]
